@@ -15,10 +15,16 @@
 EXTENDS Bytes
 
 \* the destination machine: state [acc (number of bytes accepted), failed]; one Write(len) step
+\* Modes: errAtCall / shortWrite fail stickily; transientErr / transientShort fail ONE call (the first that does not fit)
+\* and take everything afterwards (a destination that recovers: a full pipe drained, a retried network write); budget
+\* never latches (each call fails exactly when it does not fit, so a later, smaller call is taken again).
 DestWrite(st, len, k, mode) ==
-  IF st.failed THEN [st |-> st, n |-> 0, err |-> TRUE]
+  IF mode = "budget" THEN (IF st.acc + len <= k THEN [st |-> [st EXCEPT !.acc = st.acc + len], n |-> len, err |-> FALSE]
+                           ELSE [st |-> [st EXCEPT !.failed = TRUE], n |-> 0, err |-> TRUE])
+  ELSE IF st.failed /\ mode \in {"transientErr", "transientShort"} THEN [st |-> [st EXCEPT !.acc = st.acc + len], n |-> len, err |-> FALSE]
+  ELSE IF st.failed THEN [st |-> st, n |-> 0, err |-> TRUE]
   ELSE IF st.acc + len <= k THEN [st |-> [st EXCEPT !.acc = st.acc + len], n |-> len, err |-> FALSE]
-  ELSE IF mode = "errAtCall" THEN [st |-> [st EXCEPT !.failed = TRUE], n |-> 0, err |-> TRUE]
+  ELSE IF mode \in {"errAtCall", "transientErr"} THEN [st |-> [st EXCEPT !.failed = TRUE], n |-> 0, err |-> TRUE]
   ELSE [st |-> [acc |-> k, failed |-> TRUE], n |-> k - st.acc, err |-> TRUE]
 
 \* the logged write results are the destination's behaviour (sanity of the instrumented writer)
